@@ -51,9 +51,12 @@ Mk(fam, a, b, op, bp, k) ==
    \* permutation operators have a fixed float32 dtype (dtype behaviour is property C14, not C02)
    dt |-> IF k % 2 = 0 /\ a \notin {"Perm", "TransPerm"} /\ b \notin {"Perm", "TransPerm"} THEN "f64" ELSE "f32"]
 
+SpecialCls == {"Diag", "ConstDiag", "Identity", "KronDiag", "BlockDiag", "BlockInter", "Tri", "Kron", "Zero", "Dense", "Toeplitz", "Interp", "Root"}
 Pick(d) == \* quick tier: one batch configuration per (family, classes, op), rotating with the seed
   IF ~Quick THEN TRUE
-  ELSE CASE d.fam = "bin" -> d.bp = BPairs[(((d.k \div 8)) % Len(BPairs)) + 1]
+  ELSE CASE d.fam = "bin" -> \/ d.bp = BPairs[(((d.k \div 8)) % Len(BPairs)) + 1]
+                             \* classes with type-specific branches in matmul / add: additionally always the plain (no batch) configuration
+                             \/ (d.bp = BPairs[1] /\ d.op \in {"matmul", "add"} /\ d.a \in SpecialCls /\ d.b \in SpecialCls)
          [] d.fam = "tens" -> d.bp = BPairs[(((d.k \div 8)) % Len(BPairs)) + 1]
          [] d.fam = "scal" -> d.bp[1] = UBatches[(((d.k \div 4)) % Len(UBatches)) + 1]
          [] d.fam = "un" -> (d.bp[1] = UBatches[(((d.k \div 4)) % Len(UBatches)) + 1] \/ d.op \in {"permute3", "sum_b1"})
@@ -201,10 +204,22 @@ TailOp ==
                            ELSE Log("tail_mul", T_Scalar(-2), T_Scale(r, -2))
   /\ UNCHANGED <<desc, ta, tb, da, db, r>>
 
-Emit == /\ pc = 4 /\ pc' = 5 /\ UNCHANGED <<desc, ta, tb, da, db, r, hist>>
+\* ---- a second tail for the operations whose result carries derived state: the Gram matrix of the root  ----
+\* ---- decomposition of a PSD-family result must still be the result (cat_rows / add_low_rank install a ----
+\* ---- root in the cache), and a repeated / expanded operator repeated again with more leading dims     ----
+TailOp2 ==
+  /\ pc = 4 /\ pc' = 5
+  /\ LET rk == T_Rank(r) IN
+     IF desc.fam = "psd" /\ rk >= 2 THEN Log("tail_root_gram", <<>>, r)
+     ELSE IF desc.fam = "un" /\ desc.op \in {"repeat", "expand_lead", "expand_one", "unsqueeze0"} /\ rk >= 3
+          THEN LET reps == <<2>> \o [i \in 1..rk |-> IF i = 1 THEN 3 ELSE 1] IN Log("tail_repeat", reps, Al_Repeat(r, reps))
+          ELSE hist' = hist
+  /\ UNCHANGED <<desc, ta, tb, da, db, r>>
+
+Emit == /\ pc = 5 /\ pc' = 6 /\ UNCHANGED <<desc, ta, tb, da, db, r, hist>>
         /\ PrintT(ToJson([chk |-> "C02", desc |-> desc, steps |-> hist]))
 
-Next == ConstructA \/ ConstructB \/ Apply \/ TailOp \/ Emit
+Next == ConstructA \/ ConstructB \/ Apply \/ TailOp \/ TailOp2 \/ Emit
 Spec == Init /\ [][Next]_vars
 
 \* ---- invariants of the algebra (checked by TLC on every state) ---------
